@@ -952,6 +952,10 @@ enum Vm {
 }
 
 struct ThreadOut {
+    /// solo pass, single-stepped executions only: add-form RMW instructions without LOCK in generated
+    /// code, and how many instructions were looked at
+    unlocked_generated: u32,
+    stepped: u32,
     build: Outcome,
     solo: Outcome,
     conc: Outcome,
@@ -969,6 +973,17 @@ struct RunOutput {
     outs: Vec<ThreadOut>,
     solo: Vec<PassResult>,
     conc: PassResult,
+}
+
+/// Run with the trap flag set from here to the return of the execution: every instruction of the
+/// compiled program (and of rbpf's wrapper around it) is looked at by the SIGTRAP handler.
+fn exec_vm_stepped(me: usize, vm: &mut Vm, engine: Engine, region: (*mut u8, usize)) -> Result<u64, std::io::Error> {
+    sim().step_mode[me] = true;
+    unsafe { core::arch::asm!("pushfq", "or qword ptr [rsp], 0x100", "popfq") };
+    let r = exec_vm(vm, engine, region);
+    unsafe { core::arch::asm!("pushfq", "and qword ptr [rsp], -257", "popfq") };
+    sim().step_mode[me] = false;
+    r
 }
 
 fn exec_vm(vm: &mut Vm, engine: Engine, region: (*mut u8, usize)) -> Result<u64, std::io::Error> {
@@ -1078,10 +1093,17 @@ fn worker(me: usize, spec: &ExecSpec, region: (usize, usize), out: &mut ThreadOu
     pass_baton(CTRL);
     // ---- phase: solo ----
     wait_baton(me as i32);
+    // alone, a JIT execution with an atomic add on its own stack is single-stepped throughout: the
+    // stack is not on the monitored page, so this is the only way to see how that add is encoded
+    let stepped = spec.engine == Engine::Jit && spec.stack_check.is_some();
     out.solo = match &mut built {
+        Ok(vm) if stepped => conv(guarded(me, || exec_vm_stepped(me, vm, spec.engine, region))),
         Ok(vm) => conv(guarded(me, || exec_vm(vm, spec.engine, region))),
         Err(e) => Outcome::NotBuilt(e.clone()),
     };
+    sim().step_mode[me] = false;
+    out.unlocked_generated = sim().unlocked_generated[me];
+    out.stepped = sim().stepped[me];
     finish(me);
     // ---- phase: concurrent ----
     wait_baton(me as i32);
@@ -1116,7 +1138,7 @@ fn run_scenario_inner(sc: &Scenario, rng: &mut Rng) -> RunOutput {
     s.state = [0; MAXT];
     s.active = false;
     let region = (s.prog_view as usize, sc.region_len);
-    let mut outs: Vec<ThreadOut> = (0..n).map(|_| ThreadOut { build: Outcome::Ok(0), solo: Outcome::Ok(0), conc: Outcome::Ok(0) }).collect();
+    let mut outs: Vec<ThreadOut> = (0..n).map(|_| ThreadOut { unlocked_generated: 0, stepped: 0, build: Outcome::Ok(0), solo: Outcome::Ok(0), conc: Outcome::Ok(0) }).collect();
     let mut solo: Vec<PassResult> = Vec::new();
     let mut conc = PassResult { events: Vec::new(), effective: Vec::new(), switches: 0, final_page: Vec::new(), overflow: false };
     pass_baton(CTRL);
@@ -1293,6 +1315,9 @@ fn check(sc: &Scenario, out: &RunOutput) -> Option<Violation> {
         let eng = spec.engine.name();
         if let Outcome::NotBuilt(_) = out.outs[i].build {
             continue; // cannot be built at all: not a C18 matter (counted)
+        }
+        if out.outs[i].unlocked_generated > 0 {
+            return Some(Violation { class: format!("xadd-not-locked/{}", eng), detail: format!("execution #{} alone, single-stepped: the generated code executed {} add instruction(s) with a memory destination and without a LOCK prefix (its atomic add on the stack slot at r10-16 is the only add to memory in the program besides those on the shared region)", i, out.outs[i].unlocked_generated) });
         }
         let (exp, must_err) = expected_writes(spec);
         let evs: Vec<&Event> = out.solo[i].events.iter().filter(|e| is_write(e)).collect();
@@ -1630,6 +1655,10 @@ fn summarise(sc: &Scenario, out: &RunOutput, st: &mut Stats) -> (u64, u64, bool)
         }
         if spec.stack_check.is_some() {
             st.inc("executions_with_stack_xadd_self_check", 1);
+        }
+        if out.outs[i].stepped > 0 {
+            st.inc("executions_single_stepped_throughout", 1);
+            st.inc("instructions_looked_at_while_single_stepping", out.outs[i].stepped as u64);
         }
         if matches!(out.outs[i].solo, Outcome::Signal(s) if s == sched::RUNAWAY) {
             st.inc("runaway_executions_ended_by_budget", 1);
